@@ -172,12 +172,13 @@ def encode41 (rev : List Nat) (repl : List (List Lig)) : Outcome Bytes :=
   | .err e => .err e
   | .panic s => .panic s
 
-/-- one ligature at byte offset `off`: glyph, componentCount, `componentCount-1` (uint16) glyphs -/
+/-- one ligature at byte offset `off`: glyph, componentCount, `componentCount-1` glyphs
+(REPAIRED C02-zero-count: a component count of 0 is refused; it used to ask for 65535 glyphs) -/
 def readLig (b : Bytes) (off : Nat) : Outcome Lig :=
   match bytesToWords (b.drop off) with
   | out :: cc :: rest =>
-    let n := (cc + 65535) % 65536
-    if rest.length < n then .err eIO else .ok ⟨rest.take n, out⟩
+    if cc == 0 then .err eInvalid
+    else if rest.length < cc - 1 then .err eIO else .ok ⟨rest.take (cc - 1), out⟩
   | _ => .err eIO
 
 def readLigs (b : Bytes) (setPos : Nat) : List Nat → Outcome (List Lig)
